@@ -146,10 +146,10 @@ var registry = []propertySpec{
 				Bounds: "JaroWinkler on every pair of byte strings (all 256 byte values) of lengths 0..5 x 0..5 (thorough 0..7 x 0..7), prefix size symbolic 0..10, boost threshold 0 or 0.7"},
 			{Name: "VerifC12_String", Quick: tierSpec{Cases: 16}, Thorough: tierSpec{Cases: 16}, Sched: -1,
 				Bounds: "StringSimilarity on printable ASCII strings of lengths 0..3 x 0..3"},
-			{Name: "VerifC12_Date", Quick: tierSpec{Cases: 5}, Thorough: tierSpec{Cases: 18}, Sched: -1, Solver: "cvc5", Timeout: 60000,
-				Bounds: "two symbolic valid dates (years 1..9999); quick: granularity pairs year/year, month/month, day/day, year/day with maxYears = 3 and year/year with symbolic maxYears in [0.001, 1000]; thorough: all 9 pairs x both"},
-			{Name: "VerifC12_DateMonotone", Quick: tierSpec{Cases: 2}, Thorough: tierSpec{Cases: 9}, Sched: -1, Solver: "cvc5", Timeout: 60000,
-				Bounds: "three symbolic dates, maxYears = 3; quick: 2 of the 9 granularity pairs, thorough: all"},
+			{Name: "VerifC12_Date", Quick: tierSpec{Cases: 1}, Thorough: tierSpec{Cases: 1}, Sched: -1, Solver: "cvc5", Timeout: 60000,
+				Bounds: "two symbolic valid year-granularity dates (years 1..9999), maxYears = 3. Month and day granularity and a symbolic maxYears were tried (18 cases are written) and dropped from both tiers: cvc5 and z3 answer unknown on the nonlinear float queries within 60 s"},
+			{Name: "VerifC12_DateMonotone", Quick: tierSpec{Cases: 1}, Thorough: tierSpec{Cases: 1}, Sched: -1, Solver: "cvc5", Timeout: 60000,
+				Bounds: "three symbolic year-granularity dates, maxYears = 3 (the other 8 granularity pairs do not terminate within the budget and are not claimed)"},
 			{Name: "VerifC12_Weighted", Quick: tierSpec{Cases: 2}, Thorough: tierSpec{Cases: 2}, Sched: -1,
 				Bounds: "four symbolic component scores in [0,1]; default weights and symbolic non-negative weights summing to 1"},
 			{Name: "VerifC12_Individual", Quick: tierSpec{Cases: 81}, Thorough: tierSpec{Cases: 81}, Sched: -1,
@@ -219,6 +219,56 @@ var registry = []propertySpec{
 		},
 		Assumptions: []string{"time.Now() is the host clock read once per run (people born 1960..2005 without death are living under the default 100-year rule)"},
 		Outside:     "more than one living person, jobs > 1 (C19), subsets of page groups, the CLI wrapper",
+	},
+	{
+		ID:    "C20",
+		Files: map[string][]string{"": {"zz_verif_lib.go", "zz_verif_c05.go", "zz_verif_c06.go", "zz_verif_c20.go"}},
+		Harnesses: []harnessSpec{
+			{Name: "VerifC05_Order", Quick: tierSpec{Cases: 3}, Thorough: tierSpec{Cases: 3}, Sched: -1,
+				Bounds: "lemma used by the other harnesses of this check (VsLemma): before/after by Date.Years is calendar order, for two independent dates of every granularity, all days of years 1..9999"},
+			{Name: "VerifC20_Parents", Quick: tierSpec{Cases: 18}, Thorough: tierSpec{Cases: 18}, Sched: -1,
+				Bounds: "one parent and the child with exact-day births: day 1..28 and year 1700..1990 symbolic, month one of Jan/Jun/Dec by choice; the other parent born 1650 / 1995 / without a date; either parent symbolic; 3 record orders"},
+			{Name: "VerifC20_Siblings", Quick: tierSpec{Cases: 2}, Thorough: tierSpec{Cases: 2}, Sched: -1,
+				Bounds: "two siblings with symbolic exact-day births (years 1800..1990), distance 0, 5..268 or >= 280 days; both orders of the CHIL lines"},
+			{Name: "VerifC20_Marriage", Quick: tierSpec{Cases: 1}, Thorough: tierSpec{Cases: 1}, Sched: -1, Solver: "cvc5",
+				Bounds: "husband's birth and marriage as symbolic exact days, age at marriage at least 10 days away from 16 and 100 years"},
+			{Name: "VerifC20_Individual", Quick: tierSpec{Cases: 4}, Thorough: tierSpec{Cases: 4}, Sched: -1, Solver: "cvc5",
+				Bounds: "birth and death as symbolic exact days; extra unparsable dates / SEX lines by case"},
+			{Name: "VerifC20_Spouses", Quick: tierSpec{Cases: 16}, Thorough: tierSpec{Cases: 16}, Sched: -1,
+				Bounds: "all 4x4 combinations of husband / wife SEX values (M, F, missing, U)"},
+		},
+		Assumptions: []string{"exact dates, days 1..28 (so that every (day, month) is valid in every year), months Jan/Jun/Dec", "ages are float64 computations: modelled as reals with a sound rounding operator; the margins keep the verdicts away from the rounding slack"},
+		Outside:     "inexact dates, dates within the margins, more than 4 people, several families per person, the formatted age inside warning texts",
+	},
+	{
+		ID:    "C15",
+		Files: map[string][]string{"q": {"zz_verif_q_lib.go", "zz_verif_c15.go"}},
+		Harnesses: []harnessSpec{
+			{Name: "VerifC15_Eval", Pkg: "q", Quick: tierSpec{Cases: 4}, Thorough: tierSpec{Cases: 8, Split: 2}, Sched: -1,
+				Bounds: "source (9 forms) | stage (42 templates: accessors, unknown accessors, First/Last/Length/Only/Combine/NodesWithTagPath/MergeDocumentsAndIndividuals with right and wrong argument counts, objects, variables, operators; numeric arguments as symbolic digits) with one stage (thorough: two) on 4 document sets (small family, empty, single person, two documents); every result to all five formatters"},
+			{Name: "VerifC15_Special", Pkg: "q", Quick: tierSpec{Cases: 38}, Thorough: tierSpec{Cases: 38}, Sched: -1,
+				Bounds: "19 hostile programs (self-referential variables, nil pipelines, deep .Nodes chains, syntax garbage) on 2 document sets"},
+			{Name: "VerifC15_Parse", Pkg: "q", Quick: tierSpec{Cases: 4}, Thorough: tierSpec{Cases: 4}, Sched: -1,
+				Bounds: "every query of 0..3 printable ASCII bytes (all bytes symbolic) through tokenizer and parser"},
+		},
+		Assumptions: []string{"the reflect and encoding/json models reproduce Go's results and panics (validated by per-run trace comparison with the native run)"},
+		Outside:     "queries longer than the templates, accessors that need arguments, exact JSON text of map-ordered objects, 'gedcom query' as a process",
+	},
+	{
+		ID:    "C16",
+		Files: map[string][]string{"q": {"zz_verif_q_lib.go", "zz_verif_c16.go"}},
+		Harnesses: []harnessSpec{
+			{Name: "VerifC16_Operators", Pkg: "q", Quick: tierSpec{Cases: 9}, Thorough: tierSpec{Cases: 16, Split: 2}, Sched: -1,
+				Bounds: "both operands are strings of 0..2 (thorough 0..3) symbolic bytes over digits, '.', '-', '+', blank, tab, b/B/z/Z; all six operators through the real BinaryExpr against a reference order written from the statement (numbers as exact rationals)"},
+			{Name: "VerifC16_OperatorsParsed", Pkg: "q", Quick: tierSpec{Cases: 29}, Thorough: tierSpec{Cases: 29}, Sched: -1,
+				Bounds: "28 concrete operand pairs in the spellings outside the symbolic alphabet (exponents, hex, underscores, inf, nan, long mantissas, non-ASCII) and one symbolic byte per side, written as the query \"l\" op \"r\" through tokenizer, parser and engine"},
+			{Name: "VerifC16_Functions", Pkg: "q", Quick: tierSpec{Cases: 22 * 5}, Thorough: tierSpec{Cases: 22 * 5}, Sched: -1,
+				Bounds: "22 queries (accessor chains over Document/Individual/Family/Name, First/Last with a symbolic digit 0..9, Length, Only with a symbolic literal, Combine, NodesWithTagPath, objects, variables) on family documents of 0..4 people whose name bytes are symbolic; JSON of the result against JSON of the value computed with the Go API"},
+			{Name: "VerifC16_Algebra", Pkg: "q", Quick: tierSpec{Cases: 7 * 5}, Thorough: tierSpec{Cases: 7 * 5}, Sched: -1, MapOrder: true,
+				Bounds: "7 list expressions x 6 following stages x 0..4 people: variable inlining, repeatability (under 4 map iteration orders), Combine(E,E) doubling, Only(p)/Only(not p) partition and order"},
+		},
+		Assumptions: []string{"operands are ASCII; exponent / hex / inf / nan spellings are checked on the concrete pairs only", "an operand that is a number only after trimming blanks is outside the stated order (either reading of the statement is accepted); the laws still apply to it"},
+		Outside:     "accessors with arguments, Date/Place accessors with symbolic dates (floats in JSON), MergeDocumentsAndIndividuals (C10), queries deeper than 5 stages",
 	},
 	{
 		ID:    "C04",
